@@ -86,6 +86,10 @@ impl MemfsEntryOpts {
             0o40755
         });
 
+        // Only the permission bits of the given mode count (as for chmod(2)); the file type bits are
+        // those of the entry itself
+        let mode = if self.link || self.file || self.dir { mode & 0o7777 } else { mode };
+
         // OR given mode with defaults for physical entries
         self.mode = if self.link {
             mode | 0o120000
